@@ -42,10 +42,9 @@ ASSUMPTIONS = [
     "the implementation's pooled dict is split over parallel arcs cheapest-first by the harness before the verified "
     "checker runs (any other split costs at least as much, so verdicts on capacity/balance/optimality are unaffected)",
     "excluded region: negative-cost cycles, negative capacities, negative demand, non-integer data",
-    "[S] ssp_certifies is proved in part (ssp_certifies_partial: every feasible / infeasible answer of the search on an "
-    "s-t instance is accepted by the verified checker, for every input); not proved: that the search never ends without "
-    "an answer when there is no negative cycle, and the transshipment reduction. The driver runs the certifying wrapper "
-    "(ssp_sound); 'no certified answer' on an explored input is an infrastructure error, never a verdict",
+    "ssp_certifies is proved (s-t and transshipment form: without a negative-cost cycle the certified SSP model never "
+    "ends without an answer; ssp_sound: every answer is right); the driver runs that certifying model, so 'no certified "
+    "answer' on an explored input would mean a negative cycle slipped through the generator - an infrastructure error",
 ]
 RULE = ("networks of 2..6 nodes (8 thorough), <= 12 arcs (16), costs -3..6 built as reduced cost >= 0 plus a potential "
         "difference (no negative cycle), capacities 0..6 with zero-capacity arcs, parallel arcs of equal and different "
@@ -1139,10 +1138,7 @@ def _summarise(ctx):
 
 def run(ctx, budget):
     ctx.cov["rule"] = RULE
-    ctx.cov["missing_theorems"] = ["ssp_certifies [S], remaining part: with no negative-cost cycle the SSP search never ends "
-                                   "with status negcycle (acyclic Bellman-Ford parents, convergence of the potentials), and "
-                                   "the same for the super-source reduction of transshipment instances; proved part: "
-                                   "ssp_certifies_partial. Every explored input is certificate-checked in Lean instead"]
+    ctx.cov["missing_theorems"] = []     # [S] ssp_certifies is proved (SSPCert / SSPConv / SSPReduce)
     big = ctx.tier == "thorough"
     cases = list(edge_cases()) + [c["case"] for c in load_corpus("C09")]
     n = 1000 * budget if budget == 1 else 700 * budget
